@@ -97,12 +97,13 @@ Lemma map_cmds_total segs : map_cmds segs <> inr PFuel.
 Proof.
   induction segs as [|t r IH]; cbn [map_cmds]; [discriminate|].
   destruct (from_tokens t) as [c|e] eqn:E.
-  - destruct (map_cmds r) as [cs|e']; [discriminate|]. intro H. injection H as ->. now apply IH.
+  - destruct (is_empty (c_tokens c)); [discriminate|].
+    destruct (map_cmds r) as [cs'|e']; [discriminate|]. intro H. injection H as ->. now apply IH.
   - intro H. injection H as ->. now apply (from_tokens_total t).
 Qed.
 
 (** Planning a token list never diverges: the only failures are the five
-    redirection syntax errors. *)
+    redirection syntax errors or the empty-command error. *)
 Theorem plan_tokens_total toks : plan_tokens toks <> inr PFuel.
 Proof.
   unfold plan_tokens. destruct (drain_envs toks []) as [envs tk].
@@ -241,17 +242,28 @@ Qed.
 Definition head_safe (seg : list token) : bool :=
   match seg with t :: _ => safe_word t | [] => false end.
 
-Lemma map_cmds_words : forall segs cs, forallb head_safe segs = true ->
-  map_cmds segs = inl cs -> existsb no_words cs = false.
+Lemma map_cmds_words : forall segs cs, map_cmds segs = inl cs -> existsb no_words cs = false.
 Proof.
-  induction segs as [|seg r IH]; intros cs HS H; cbn [map_cmds] in H.
+  induction segs as [|seg r IH]; intros cs H; cbn [map_cmds] in H.
   - injection H as <-. reflexivity.
-  - cbn [forallb] in HS. apply andb_true_iff in HS as [H1 H2].
-    destruct (from_tokens seg) as [c|e] eqn:E; [|discriminate].
-    destruct (map_cmds r) as [cs'|e] eqn:E2; [|discriminate]. injection H as <-.
-    destruct seg as [|t l]; [discriminate|]. cbn [head_safe] in H1.
-    destruct (from_tokens_head_word _ _ _ H1 E) as [x Hx].
-    cbn [existsb]. unfold no_words at 1. rewrite Hx. cbn [is_empty orb]. now apply IH.
+  - destruct (from_tokens seg) as [c|e]; [|discriminate].
+    destruct (is_empty (c_tokens c)) eqn:N; [discriminate|].
+    destruct (map_cmds r) as [cs'|e] eqn:E; [|discriminate]. injection H as <-.
+    cbn [existsb]. unfold no_words at 1. rewrite N. cbn [orb]. now apply IH.
+Qed.
+
+(** stages that all start with a proper word are never rejected as empty *)
+Lemma map_cmds_head_safe : forall segs, forallb head_safe segs = true -> map_cmds segs <> inr PEmpty.
+Proof.
+  induction segs as [|seg r IH]; intros HS; cbn [map_cmds]; [discriminate|].
+  cbn [forallb] in HS. apply andb_true_iff in HS as [H1 H2].
+  destruct (from_tokens seg) as [c|e] eqn:E.
+  - destruct seg as [|t l]; [discriminate|]. cbn [head_safe] in H1.
+    destruct (from_tokens_head_word _ _ _ H1 E) as [x Hx]. rewrite Hx. cbn [is_empty].
+    specialize (IH H2). destruct (map_cmds r) as [cs|e']; [discriminate|]. intro H. injection H as ->. contradiction.
+  - intro H. injection H as ->. unfold from_tokens in E.
+    destruct (from_loop _ _) as [[[l' ty] va]|]; [|discriminate].
+    destruct (tokens_to_redirections l') as [[tk rd]|e]; discriminate.
 Qed.
 
 (** * guarded look-ups of the tokenizer *)
@@ -286,42 +298,42 @@ Proof.
   apply nth_error_None in E. cbn [length] in E. lia.
 Qed.
 
-(** * the repaired planner satisfies the full statement *)
-Lemma map_cmds_fixed_words : forall segs cs, map_cmds_fixed segs = inl cs -> existsb no_words cs = false.
-Proof.
-  induction segs as [|seg r IH]; intros cs H; cbn [map_cmds_fixed] in H.
-  - injection H as <-. reflexivity.
-  - destruct (from_tokens seg) as [c|e]; [|discriminate].
-    destruct (no_words c) eqn:N; [discriminate|].
-    destruct (map_cmds_fixed r) as [cs'|e] eqn:E; [|discriminate]. injection H as <-.
-    cbn [existsb]. rewrite N. cbn [orb]. now apply IH.
-Qed.
-
-Theorem plan_fixed_full toks cl : plan_tokens_fixed toks = inl cl ->
+(** * the planner (with the empty-command check of baff407) satisfies the full statement *)
+Theorem plan_full toks cl : plan_tokens toks = inl cl ->
   first_word_lookups false cl = FwSkip \/ first_word_lookups false cl = FwRun [].
 Proof.
   intro H. apply first_word_exact. unfold plans_empty_command.
-  unfold plan_tokens_fixed in H. destruct (drain_envs toks []) as [envs tk].
-  match type of H with context [map_cmds_fixed ?x] =>
-    destruct (map_cmds_fixed x) as [cs|e] eqn:E; [|discriminate] end.
-  injection H as <-. cbn [cl_cmds]. now apply (map_cmds_fixed_words _ _ E).
+  unfold plan_tokens in H. destruct (drain_envs toks []) as [envs tk].
+  match type of H with context [map_cmds ?x] =>
+    destruct (map_cmds x) as [cs|e] eqn:E; [|discriminate] end.
+  injection H as <-. cbn [cl_cmds]. now apply (map_cmds_words _ _ E).
 Qed.
 
-(** where the unrepaired planner yields no wordless command, the repair changes nothing *)
-Lemma map_cmds_fixed_same : forall segs cs, map_cmds segs = inl cs -> existsb no_words cs = false ->
-  map_cmds_fixed segs = inl cs.
+(** where the planner before the fix yielded no wordless command, the fix changes nothing *)
+Lemma map_cmds_old_same : forall segs cs, map_cmds_old segs = inl cs -> existsb no_words cs = false ->
+  map_cmds segs = inl cs.
 Proof.
-  induction segs as [|seg r IH]; intros cs H N; cbn [map_cmds map_cmds_fixed] in *.
-  - now injection H as <-.
+  induction segs as [|seg r IH]; intros cs H N; cbn [map_cmds map_cmds_old] in *.
+  - exact H.
   - destruct (from_tokens seg) as [c|e]; [|discriminate].
-    destruct (map_cmds r) as [cs'|e] eqn:E; [|discriminate]. injection H as <-.
-    cbn [existsb] in N. apply orb_false_iff in N as [N1 N2]. rewrite N1. now rewrite (IH _ eq_refl N2).
+    destruct (map_cmds_old r) as [cs'|e] eqn:E; [|discriminate]. injection H as <-.
+    cbn [existsb] in N. apply orb_false_iff in N as [N1 N2]. unfold no_words in N1. rewrite N1.
+    now rewrite (IH _ eq_refl N2).
 Qed.
 
-Theorem plan_fixed_conservative toks cl : plan_tokens toks = inl cl -> plans_empty_command cl = false ->
-  plan_tokens_fixed toks = inl cl.
+Theorem plan_old_conservative toks cl : plan_tokens_old toks = inl cl -> plans_empty_command cl = false ->
+  plan_tokens toks = inl cl.
 Proof.
-  unfold plan_tokens, plan_tokens_fixed, plans_empty_command. destruct (drain_envs toks []) as [envs tk].
-  match goal with |- context [map_cmds ?x] => destruct (map_cmds x) as [cs|e] eqn:E; [|discriminate] end.
-  intros H N. injection H as <-. cbn [cl_cmds] in N. now rewrite (map_cmds_fixed_same _ _ E N).
+  unfold plan_tokens, plan_tokens_old, plans_empty_command. destruct (drain_envs toks []) as [envs tk].
+  match goal with |- context [map_cmds_old ?x] => destruct (map_cmds_old x) as [cs|e] eqn:E; [|discriminate] end.
+  intros H N. injection H as <-. cbn [cl_cmds] in N. now rewrite (map_cmds_old_same _ _ E N).
+Qed.
+
+(** and where it now fails with [PEmpty] or succeeds, the old planner agreed on every other error *)
+Lemma map_cmds_old_err : forall segs e, map_cmds segs = inr e -> e <> PEmpty -> map_cmds_old segs = inr e.
+Proof.
+  induction segs as [|seg r IH]; intros e H N; cbn [map_cmds map_cmds_old] in *; [discriminate|].
+  destruct (from_tokens seg) as [c|e0]; [|exact H].
+  destruct (is_empty (c_tokens c)); [injection H as <-; contradiction|].
+  destruct (map_cmds r) as [cs|e1] eqn:E; [discriminate|]. injection H as ->. now rewrite (IH _ eq_refl N).
 Qed.
